@@ -1161,6 +1161,8 @@ pub struct CaseResult {
 }
 
 /// Runs one generated case on the implementation; produces the Coq case and monitor verdicts.
+pub static FOCUS_PROP: std::sync::OnceLock<String> = std::sync::OnceLock::new();
+
 pub fn run_case(ctx: &Ctx, id: u64, g: &GenCase, hist: &mut Hist) -> CaseResult {
     let mut t = new_table(&g.cfg);
     intern_begin();
@@ -1279,7 +1281,10 @@ pub fn run_case(ctx: &Ctx, id: u64, g: &GenCase, hist: &mut Hist) -> CaseResult 
         }
         h = (h ^ after.buckets.iter().map(|b| b.nodes.len() as u64 * 31 + b.pending.is_some() as u64).sum::<u64>()).wrapping_mul(1099511628211);
         before = after;
-        if !failures.is_empty() {
+        // a case ends at the first failure of the property in focus; failures of other properties are
+        // recorded (their own checks report them) but do not cut the history short
+        let fp = FOCUS_PROP.get().map(|x| x.as_str()).unwrap_or("");
+        if failures.iter().any(|f: &(String, String, usize)| f.0 == fp) || failures.len() > 12 {
             break;
         }
     }
@@ -1332,6 +1337,7 @@ pub fn main(args: &[String]) {
         }
         i += 1;
     }
+    let _ = FOCUS_PROP.set(focus.to_uppercase());
     let pool = make_pool();
     let ctx = Ctx::new(&pool);
     let mut sum = Summary::new(&format!("kb/{}", focus));
